@@ -209,6 +209,46 @@ def punch_file(case, path):
         f.write(b"".join(k + b"\n" for k in keep))
 
 
+_PAIR = {"2": "3", "3": "2", "4": "5", "5": "4", "6": "7", "7": "6", "8": "9", "9": "8"}
+_SWAP = str.maketrans("abxy", "bayx")
+
+
+def decoy_val(v):
+    """a different value that prints with the same number of characters wherever that is easy"""
+    if v is None or isinstance(v, bool):
+        return v
+    t = v[0]
+    if t == "i":
+        d = str(v[1])
+        return ["i", int(d[:-1] + _PAIR[d[-1]])] if d[-1] in _PAIR else v
+    if t == "f":
+        d = v[1]
+        return ["f", d[:-1] + _PAIR[d[-1]]] if d[-1] in _PAIR and "e" not in d and "n" not in d else v
+    if t == "s":
+        return ["s", v[1].translate(_SWAP)]
+    if t in ("l", "t"):
+        return [t, [decoy_val(x) for x in v[1]]]
+    if t == "d":
+        return ["d", [[k, decoy_val(x)] for k, x in v[1]]]
+    if t == "r":
+        return ["r", v[1], [decoy_val(x) for x in v[2]]]
+    return v
+
+
+def decoy_case(case):
+    """another experiment of the same shape (same components/triples, other values) to be run on the same path beforehand"""
+    c = json.loads(json.dumps(case))
+    for kind in ("envs", "lrns", "vals"):
+        for comp in c[kind]:
+            if comp.get("params") is not None:
+                comp["params"] = decoy_val(comp["params"])
+    c["rows"] = [[t, [decoy_val(r) for r in rows]] for t, rows in c["rows"]]
+    c["decoy"] = False
+    c["punch"] = []
+    c["phases"] = 1
+    return c
+
+
 def run_impl(case):
     """all three routes; returns dict route -> canonical result or {"raised": name}"""
     from coba.results import Result
@@ -222,6 +262,16 @@ def run_impl(case):
         if sub:
             os.makedirs(os.path.join(d, sub), exist_ok=True)
         path = os.path.join(d, sub, base)
+        if case.get("decoy"):
+            # the same path held the log of a different experiment before (loaded, then removed): nothing of it may show up later
+            try:
+                run_route(decoy_case(case), path)
+                with _Ctx():
+                    Result.from_file(path)
+            except Exception:
+                pass
+            if os.path.exists(path):
+                os.remove(path)
         r2, x2, m2, _ = run_route(case, path)
         out["file"] = canon_result(r2) if r2 is not None else {"raised": x2}
         logs["file"] = m2
@@ -342,14 +392,57 @@ def transactions(case):
     return None, comps + [t4(t) for t in tris if t not in fail]
 
 
+def reward_form(o):
+    """what the pinned code records for a reward object (coba.json: {registered name: __getstate__()}), as a tagged value.
+    L1 -> {"L1": argmax}; BR -> {"BR": repr((argmax,))} or repr((argmax,value)); HR -> {"HR": repr(argmax)};
+    DR -> {"DR": repr(((actions,rewards),0))}"""
+    from props.c07_parts import dec as _dec
+    name, args = o[1], [_dec(a) for a in o[2]]
+    if name == "L1":
+        st = o[2][0]
+    elif name == "BR":
+        st = ["s", repr((args[0],) if len(args) == 1 or args[1] == 1 else (args[0], args[1]))]
+    elif name == "HR":
+        st = ["s", repr(args[0])]
+    elif name == "DR":
+        st = ["s", repr(((args[0], args[1]), 0))]
+    else:
+        raise ValueError(o)
+    return ["d", [[["s", name], st]]]
+
+
+ESC = chr(0xE000)
+
+
+def lean_str(s):
+    """injective escape of code points the JSON line protocol to the Lean driver cannot carry (surrogates, NUL)"""
+    if not any(0xD800 <= ord(c) <= 0xDFFF or c == "\x00" or c == ESC for c in s):
+        return s
+    return "".join((ESC + "%04x" % ord(c)) if (0xD800 <= ord(c) <= 0xDFFF or c == "\x00" or c == ESC) else c for c in s)
+
+
+def unlean_str(s):
+    if ESC not in s:
+        return s
+    out, i = [], 0
+    while i < len(s):
+        if s[i] == ESC:
+            out.append(chr(int(s[i + 1:i + 5], 16)))
+            i += 5
+        else:
+            out.append(s[i])
+            i += 1
+    return "".join(out)
+
+
 def lean_key(k):
     if k is None or isinstance(k, bool):
         return k
     if k[0] == "s":
-        return k
+        return ["s", lean_str(k[1])]
     if k[0] == "i":
         return ["i", int(k[1])]
-    return ["o", pystr_key(k)]
+    return ["o", lean_str(pystr_key(k))]
 
 
 def lean_val(v):
@@ -367,11 +460,13 @@ def lean_val(v):
         n, d = x.as_integer_ratio()
         return ["q", n, d]
     if t == "s":
-        return v
+        return ["s", lean_str(v[1])]
     if t in ("l", "t"):
         return [t, [lean_val(x) for x in v[1]]]
     if t == "d":
         return ["d", [[lean_key(k), lean_val(x)] for k, x in v[1]]]
+    if t == "r":
+        return lean_val(reward_form(v))      # serialised by json's default hook after minimize: a one-entry dict
     raise ValueError(v)
 
 
@@ -390,18 +485,20 @@ def sort_model_val(c):
         if c[0] in ("l", "t"):
             return [c[0], [sort_model_val(x) for x in c[1]]]
         if c[0] == "d":
-            return ["d", sorted([[k, sort_model_val(v)] for k, v in c[1]], key=lambda p: p[0])]
+            return ["d", sorted([[unlean_str(k), sort_model_val(v)] for k, v in c[1]], key=lambda p: p[0])]
+        if c[0] == "s":
+            return ["s", unlean_str(c[1])]
     return c
 
 
 def canon_model_row(row):
-    return sorted([[k, sort_model_val(v)] for k, v in row if v is not None], key=lambda p: p[0])
+    return sorted([[unlean_str(k), sort_model_val(v)] for k, v in row if v is not None], key=lambda p: p[0])
 
 
 def canon_model_result(r):
     if "raised" in r:
         return r
-    return {"exp": ["d", sorted([[k, sort_model_val(v)] for k, v in r["exp"]], key=lambda p: p[0])], "envs": [canon_model_row(x) for x in r["envs"]],
+    return {"exp": ["d", sorted([[unlean_str(k), sort_model_val(v)] for k, v in r["exp"]], key=lambda p: p[0])], "envs": [canon_model_row(x) for x in r["envs"]],
             "lrns": [canon_model_row(x) for x in r["lrns"]], "vals": [canon_model_row(x) for x in r["vals"]],
             "ints": [canon_model_row(x) for x in r["ints"]]}
 
@@ -422,6 +519,8 @@ def has_tie(v):
         return any(has_tie(x) for x in v[1])
     if t == "d":
         return any(has_tie(x) for _, x in v[1])
+    if t == "r":
+        return has_tie(reward_form(v))
     return False
 
 
@@ -470,6 +569,9 @@ def val_ok(o, g, top, tupled=True):
     if isinstance(o, bool):
         return None if g is o else "bool"
     t = o[0]
+    if t == "r":
+        why = val_ok(reward_form(o), g, top, tupled)
+        return ("reward-" + why) if why else None
     if t == "i":
         return None if g == ["q", int(o[1]), 1] else "int"
     if t == "f":
@@ -518,7 +620,7 @@ def kind_of(o):
         return "none"
     if isinstance(o, bool):
         return "bool"
-    return {"i": "int", "f": "float", "s": "str", "l": "list", "t": "tuple", "d": "dict"}[o[0]]
+    return {"i": "int", "f": "float", "s": "str", "l": "list", "t": "tuple", "d": "dict", "r": "reward"}[o[0]]
 
 
 def row_get(row, name):
@@ -544,7 +646,7 @@ def p16_shape(rows, name):
     if first_seq:
         if any(k in ("none", "bool", "int", "float") for k in kinds):
             return "TypeError"
-        if any(k in ("str", "dict") for k in kinds):
+        if any(k in ("str", "dict", "reward") for k in kinds):
             return "scalar-tupled"
         return None
     if any(is_seq(c) for c in cells):
@@ -687,9 +789,15 @@ def check_property(case, impl):
 
 
 # ------------------------------------------------------------------ generator
-STR_POOL = ["", "a", "x y", "é", "naïve\n", "line1\nline2", "\r\n", "tab\tq\"uote\\", " sep", "\U0001F600", "NaN", "1", "null", " lead", "ü" * 3, "\x7f\x01"]
-ROW_STR_KEYS = ["reward", "a", "b", "c d", "é\n", "rewards", "action", "probability", "Z", "k9"]
-PARAM_STR_KEYS = ["a", "b", "learning_rate", "seed", "é", "x y", "args", "n\n", "type"]
+# awkward code points are built with chr() so that no tool re-encodes them: lone surrogates (what surrogateescape decoding of undecodable
+# file names produces), NUL, line/paragraph separators, NEL, astral characters, BOM, U+FFFF.  Not generated: a high surrogate directly
+# followed by a low one as two separate code units (CPython's json joins them into one astral character when reading back).
+_SUR_LO, _SUR_HI = chr(0xDC80), chr(0xD800)
+AWKWARD_STRS = [_SUR_LO + "abc", "caf" + chr(0xDCE9) + ".csv", _SUR_HI, chr(0xDFFF) + chr(0xD800), "x" + chr(0xD83D), chr(0) , "a" + chr(0) + "b",
+                chr(0x2028) + chr(0x2029), chr(0x85) + chr(0x1C), chr(0x10000) + chr(0x1F600), chr(0xFEFF) + "bom", chr(0xFFFF), chr(0x0B) + chr(0x0C)]
+STR_POOL = ["", "a", "x y", "é", "naïve\n", "line1\nline2", "\r\n", "tab\tq\"uote\\", "\u2028sep", "\U0001F600", "NaN", "1", "null", " lead", "ü" * 3, "\x7f\x01"] + AWKWARD_STRS
+ROW_STR_KEYS = ["reward", "a", "b", "c d", "é\n", "rewards", "action", "probability", "Z", "k9", "k" + _SUR_LO, chr(0) + "z", "p" + chr(0x2028), chr(0x1F600) + "k"]
+PARAM_STR_KEYS = ["a", "b", "learning_rate", "seed", "é", "x y", "args", "n\n", "type", "f" + _SUR_LO, "n" + chr(0), chr(0x2029) + "p"]
 
 
 def gen_float(rng):
@@ -716,10 +824,30 @@ def gen_float(rng):
     return repr(rng.randint(-10 ** (d + 1), 10 ** (d + 1)) / 10 ** d)
 
 
+def gen_reward(rng):
+    """a coba reward object (evaluators such as SequentialCB(record=['rewards']) put them into rows)"""
+    k = rng.below(6)
+    fl = lambda: ["f", rng.choice(["0.25", "0.75", "0.5", "1.0", "-2.5", "0.125", "3.0"])]
+    acts = ["l", [["i", a] for a in rng.sample([0, 1, 2, 3, 5], rng.choice([2, 3]))]]
+    if k == 0:
+        return ["r", "L1", [fl()]]
+    if k == 1:
+        return ["r", "BR", [rng.choice([["i", rng.randint(0, 3)], ["s", "a"], acts])]]
+    if k == 2:
+        return ["r", "BR", [["i", rng.randint(0, 3)], rng.choice([["f", "0.5"], ["i", 2], ["i", 1]])]]
+    if k == 3:
+        return ["r", "HR", [acts]]
+    if k == 4:
+        return ["r", "DR", [acts, ["l", [fl() for _ in acts[1]]]]]
+    return ["r", "DR", [["l", [["s", "x"], ["s", "y"]]], ["l", [["i", 0], ["i", 1]]]]]
+
+
 def gen_scalar(rng):
-    k = rng.wchoice([(10, "none"), (6, "bool"), (16, "int"), (30, "float"), (18, "str")])
+    k = rng.wchoice([(10, "none"), (6, "bool"), (16, "int"), (30, "float"), (20, "str"), (5, "reward")])
     if k == "none":
         return None
+    if k == "reward":
+        return gen_reward(rng)
     if k == "bool":
         return rng.chance(0.5)
     if k == "int":
@@ -731,7 +859,7 @@ def gen_scalar(rng):
 
 def gen_nested_key(rng, used):
     for _ in range(10):
-        k = ["s", rng.choice(["a", "b", "k", "é", "x\ny", "zz"])] if rng.chance(0.8) else ["i", rng.randint(2, 9)]
+        k = ["s", rng.choice(["a", "b", "k", "é", "x\ny", "zz", "s" + _SUR_LO, chr(0)])] if rng.chance(0.8) else ["i", rng.randint(2, 9)]
         if json_key(k) not in used:
             used.add(json_key(k))
             return k
@@ -893,6 +1021,7 @@ class C07(Property):
         case["gz"] = is_gzip_name(os.path.join(*FNAME_SHAPES[case["fname"]]))
         if rng.chance(0.2):
             case["fail"] = rng.sample(triples, 1)
+        case["decoy"] = rng.chance(0.3)
         mode = rng.wchoice([(35, "fresh"), (35, "two"), (30, "punch")])
         if mode == "two":
             case["phases"] = 2
@@ -948,6 +1077,24 @@ class C07(Property):
                            [[1, 1, 0], [D((S("never"), I(0)))]]],
                   "phases": 2, "skip1": [[1, 0, 0], [0, 1, 0]], "fail": [[1, 1, 0]], "gz": True})
         cs.append(c)
+        # awkward code points in cells, field names, params, description (m1: lone surrogates need ensure_ascii)
+        for i in range(0, len(AWKWARD_STRS), 2):
+            a, b = AWKWARD_STRS[i], AWKWARD_STRS[(i + 1) % len(AWKWARD_STRS)]
+            for shape in ("plain", "gz"):
+                cs.append(base([D((S("k"), S(a)), (S("f" + b), I(1))), D((S("k"), L(S(b), D((S(a), S(b))))))],
+                               envs=[{"params": D((S("source"), S(a)), (S(b), T(S(a))))}], lrns=[{"params": D((S("p" + a), S(b)))}],
+                               vals=[{"params": D((S("q"), D((S(b), S(a))))), "lazy": True}], desc=a + " " + b, fname=shape, gz=(shape == "gz"), phases=1 + (i // 2) % 2))
+        # reward objects as cells / nested / params (m4: they are recorded in their registered json form)
+        R = lambda name, *args: ["r", name, list(args)]
+        rws = [R("L1", ["f", "0.25"]), R("BR", I(1)), R("BR", L(I(1), I(2))), R("BR", I(2), ["f", "0.5"]), R("HR", L(I(1), I(2))),
+               R("DR", L(I(1), I(2)), L(["f", "0.25"], ["f", "0.75"])), R("DR", L(S("x"), S("y")), L(I(0), I(1)))]
+        cs.append(base([D((S("rewards"), rw), (S("x"), rw), (S("y"), L(rw, None))) for rw in rws], envs=[{"params": D((S("p"), rws[0]), (S("q"), T(rws[5])))}],
+                       lrns=[{"params": D((S("r"), rws[1]))}], vals=[{"params": D((S("s"), rws[4])), "lazy": False}], fname="gz", gz=True, phases=2))
+        # the same path held another experiment's log of the same byte length before (m3)
+        for shape in ("plain", "gz"):
+            cs.append(base([D((S("reward"), ["f", "0.25"])), D((S("reward"), ["f", "0.5"]))], lrns=[{"params": D((S("family"), S("eps")), (S("epsilon"), ["f", "0.2"]))}],
+                           envs=[{"params": D((S("e"), I(0)))}], fname=shape, gz=(shape == "gz"), decoy=True))
+            cs.append(base([D((S("reward"), ["f", "0.25"])), D((S("k"), S("abba")))], fname=shape, gz=(shape == "gz"), decoy=True, phases=2, skip1=[[0, 0, 0]]))
         # result-file names of every shape (DiskSink and DiskSource must agree on what is gzip)
         for shape in FNAME_SHAPES:
             for ph in (1, 2):
@@ -977,6 +1124,8 @@ class C07(Property):
         nontrivial = False
         tags.append("phases:%d" % case.get("phases", 1))
         tags.append("fname:" + fname_shape(case))
+        if case.get("decoy"):
+            tags.append("decoy-run-on-same-path")
         if case.get("punch"):
             gone = punched_records(case)
             for kk in sorted({g[0] for g in gone}):
@@ -1140,6 +1289,8 @@ class C07(Property):
                 yield c
         if case.get("phases", 1) == 2:
             c = cp(case); c["phases"] = 1; c["skip1"] = []; yield c
+        if case.get("decoy"):
+            c = cp(case); c["decoy"] = False; yield c
         if fname_shape(case) != "plain":
             c = cp(case); c["gz"] = False; c["fname"] = "plain"; yield c
         if case.get("punch"):
